@@ -68,8 +68,8 @@ theorem swap_if_else_sound (id : Nat) (a b : List C16.Stmt) :
 
 /-- `remove_dead_ifs` -/
 theorem dead_if_sound (a b k : List C16.Stmt) :
-    C16.Equiv (.ite .tt a b :: k) (a ++ k) ∧ C16.Equiv (.ite .ff a b :: k) (b ++ k) ∧ C16.Equiv (.whileS .ff a :: k) k :=
-  ⟨C16.ite_tt a b k, C16.ite_ff a b k, C16.while_ff_drop a k⟩
+    C16.Equiv (.ite .tt a b :: k) (a ++ k) ∧ C16.Equiv (.ite .ff a b :: k) (b ++ k) ∧ C16.Equiv (.whileS .ff a b :: k) (b ++ k) :=
+  ⟨C16.ite_tt a b k, C16.ite_ff a b k, C16.while_ff_drop a b k⟩
 
 /-- `delete_unreachable_code`, now including the trace: whatever follows a statement that `is_blocking` reports may go -/
 theorem unreachable_drop_sound (st : C16.Stmt) (hb : C16.blocks .none st = true) (k : List C16.Stmt) :
@@ -77,9 +77,9 @@ theorem unreachable_drop_sound (st : C16.Stmt) (hb : C16.blocks .none st = true)
 
 /-- `early_continue` (and its inverse): a `continue` that ends a loop body is the same as falling off the end, for
 every kind of loop -/
-theorem trailing_continue_sound (b : List C16.Stmt) (c : C16.Cond) (it : C16.Iter) :
-    C16.EquivS (.whileS c b) (.whileS c (C16.stripL b)) ∧ C16.EquivS (.forS it b) (.forS it (C16.stripL b)) :=
-  ⟨C16.EquivS.whileS c (C16.stripL_loopEquiv b), C16.EquivS.forS it (C16.stripL_loopEquiv b)⟩
+theorem trailing_continue_sound (b e : List C16.Stmt) (c : C16.Cond) (it : C16.Iter) :
+    C16.EquivS (.whileS c b e) (.whileS c (C16.stripL b) e) ∧ C16.EquivS (.forS it b e) (.forS it (C16.stripL b) e) :=
+  ⟨C16.EquivS.whileS c (C16.stripL_loopEquiv b) (C16.Equiv.refl e), C16.EquivS.forS it (C16.stripL_loopEquiv b) (C16.Equiv.refl e)⟩
 
 /-- equivalence is not trivial: swapping two statements is not validated, and is not an equivalence -/
 theorem reorder_not_equiv : ¬ C16.Equiv [.simple 1, .simple 2] [.simple 2, .simple 1] := by
@@ -95,8 +95,8 @@ theorem reorder_not_equiv : ¬ C16.Equiv [.simple 1, .simple 2] [.simple 2, .sim
 
 /-- early-continue in a loop, as the real rule writes it, is validated -/
 example : C16.validate
-    [.forS .unk [.simple 1, .ite (.unk 1 false) [.simple 2, .simple 3] []]]
-    [.forS .unk [.simple 1, .ite (.unk 1 true) [.cont] [], .simple 2, .simple 3]] = true := by
+    [.forS .unk [.simple 1, .ite (.unk 1 false) [.simple 2, .simple 3] []] []]
+    [.forS .unk [.simple 1, .ite (.unk 1 true) [.cont] [], .simple 2, .simple 3] []] = true := by
   simp [C16.validate, C16.normL, C16.normS, C16.stripL, C16.stripLast, C16.beqL, C16.beqS, C16.blocksL, C16.blocks, C16.hasJmp, C16.hasJmpL, C16.firstIter]
 
 /-- rules with a theorem above (names as in the pipeline table); everything else: sweep only -/
